@@ -26,6 +26,11 @@ pub struct Sess<L: SimLang, N: Analysis<L>> {
     pub eqs: Vec<(Tm, Tm)>,
     pub log_hash: u64,
     pub cur_op: usize,
+    /// a second e-graph of the same language living in the same thread (knob `companion`): it gets the
+    /// same insertions (hence the same class ids, shapes and slot names) but other equations, interleaved
+    /// with the run's operations. Nothing of it is ever compared; it exists so that state which wrongly
+    /// outlives or crosses an e-graph (a per-thread or process-wide cache) meets a second user.
+    pub companion: Option<EGraph<L, N>>,
 }
 
 impl<L: SimLang, N: Analysis<L>> Sess<L, N> {
@@ -39,7 +44,51 @@ impl<L: SimLang, N: Analysis<L>> Sess<L, N> {
             eqs: Vec::new(),
             log_hash: 0,
             cur_op: 0,
+            companion: None,
         }
+    }
+
+    /// Creates the companion e-graph (same language, same analysis value).
+    pub fn enable_companion(&mut self)
+    where
+        N: Clone,
+    {
+        self.companion = Some(EGraph::new(self.eg.analysis.clone()));
+    }
+
+    /// Mirrors one op of the trace on the companion e-graph: `add` literally, `union` with a
+    /// different right side (an earlier tracked term), so that its equalities differ from the run's.
+    fn companion_op(&mut self, op: &Op) {
+        let Some(mut c) = self.companion.take() else { return };
+        match op.name.as_str() {
+            "add" => {
+                let re = to_re::<L>(&op.t[0], &mut self.nm);
+                let h = c.add_expr(re);
+                self.log(&format!("companion add -> {h:?}"));
+            }
+            "union" => {
+                let other = if self.tracked.is_empty() {
+                    op.t[1].clone()
+                } else {
+                    self.tracked[(self.cur_op * 7 + 3) % self.tracked.len()].tm.clone()
+                };
+                let ra = to_re::<L>(&op.t[0], &mut self.nm);
+                let rb = to_re::<L>(&op.t[1], &mut self.nm);
+                let ro = to_re::<L>(&other, &mut self.nm);
+                let ha = c.add_expr(ra);
+                let _ = c.add_expr(rb);
+                let ho = c.add_expr(ro);
+                let r = c.union(&ha, &ho);
+                let e = c.eq(&ha, &ho);
+                self.log(&format!("companion union -> {r} {e}"));
+            }
+            "probe" => {
+                let p = c.progress();
+                self.log(&format!("companion progress {} {}", p.number_of_live_classes, p.sum_of_slots));
+            }
+            _ => {}
+        }
+        self.companion = Some(c);
     }
 
     pub fn log(&mut self, s: &str) {
@@ -713,6 +762,17 @@ pub fn max_name(ops: &[Op]) -> usize {
 /// Executes one op of a sess trace on the session; panics propagate to the caller's `catch`.
 pub fn exec_sess_op<L: SimLang, N: Analysis<L>>(s: &mut Sess<L, N>, op: &Op, run: &Run) {
     let nodewise = run.get("nodewise") != 0;
+    // the companion e-graph (if any) acts before the run's op on even positions, after it on odd ones
+    if s.companion.is_some() && s.cur_op % 2 == 0 {
+        s.companion_op(op);
+    }
+    exec_sess_op_main(s, op, run, nodewise);
+    if s.companion.is_some() && s.cur_op % 2 == 1 {
+        s.companion_op(op);
+    }
+}
+
+fn exec_sess_op_main<L: SimLang, N: Analysis<L>>(s: &mut Sess<L, N>, op: &Op, run: &Run, nodewise: bool) {
     match op.name.as_str() {
         "add" => {
             s.add_term(&op.t[0], nodewise);
